@@ -48,14 +48,20 @@ def rand_config(r):
     return ','.join(toks)
 
 
+GLUE_VOCAB = ['§', '§§', 'T', 'R', 'N', 'S', 'E', 'W', '1', '2', '5', '54', '154', '97', 'N2', 'W2', 'Sec', 'Sec.', 'Section', 'Sect', '14', '14:', ' ', ' ', ',', '-',
+              'T1N', 'R2W', 'T154N-R97W', '154N97W', '5N3W', 'West', 'East', 'est', 'st', 't', 'e', 's', ':', 'NE/4', 'and', 'of', 'North', 'South', 'Range', 'Township',
+              '\n', '.', '&', 'thru', 'P.M.', 'PM', 'the', '5th']
+
+
 def run(tier, mode):
     import pytrs
     r = H.rng('c03')
     fails = []
     n_or = 0
     nontriv = set()
-    dist = {'plss': 0, 'tract': 0, 'invalid_args': 0, 'exn_kinds': {}}
+    dist = {'plss': 0, 'tract': 0, 'invalid_args': 0, 'exn_kinds': {}, 'glue_soup': 0, 'glued_pp': 0}
     texts = list(TRICKY)
+    from pytrs.parser.rgxlib import twprge_regex as _TR, multisec_regex as _MS
     n = 500 if tier == 'quick' else 8000
     for _ in range(n):
         k = r.random()
@@ -64,6 +70,11 @@ def run(tier, mode):
         lots = [r.randint(1, 4) for _ in range(r.randint(2, 5))]
         texts.append(r.choice(['', 'T154N-R97W Sec 14: ']) + r.choice([', ', ' and ', '; ']).join(
             f'{r.choice(["Lot", "Lots", "N/2 of Lot"])} {x}' + (f'({r.choice(["40", "38.29", "40.00", "0"])})' if r.random() < 0.7 else '') for x in lots))
+    # the one situation theorem C03_plss_parser_raises leaves open: a Twp/Rge match starting or ending exactly where a section match starts.
+    # Tokens glued together without blanks aim at it; `glued_pp` counts the preprocessed texts in which it occurs.
+    for _ in range(n // 4):
+        dist['glue_soup'] += 1
+        texts.append(''.join(r.choice(GLUE_VOCAB) for _ in range(r.randint(2, 9))))
     for i, t in enumerate(texts):
         for cfg in ([''] + [rand_config(r) for _ in range(3)] if i < len(TRICKY) else [rand_config(r)]):
             n_or += 1
@@ -73,6 +84,9 @@ def run(tier, mode):
                 dist['exn_kinds'][d.name] = dist['exn_kinds'].get(d.name, 0) + 1
                 fails.append({'kind': 'plssdesc_raises', 'detail': {'text': t, 'config': cfg}, 'got': repr(d), 'want': 'no exception', 'known_id': None})
                 continue
+            _pp = d.pp_desc or ''
+            if {m.start() for m in _MS.finditer(_pp)} & ({m.end() for m in _TR.finditer(_pp)} | {m.start() for m in _TR.finditer(_pp)}):
+                dist['glued_pp'] += 1
             if len(d.tracts) < 1:
                 fails.append({'kind': 'no_tract', 'detail': {'text': t, 'config': cfg}, 'got': '0 tracts', 'want': '>= 1 tract', 'known_id': None})
                 continue
